@@ -698,7 +698,11 @@ func (w *World) deliveredBeforeBlock(u string, b *tblock) bool {
 	}
 	for _, e := range w.H[0].events {
 		if e.Kind == "headers" && e.Hash == b.hash {
-			return tDelivered <= e.At && w.sameGen(u, e.NodeID)
+			// across a clean restart the delivered loser is still tracked (persisted unconfirmed set, put
+			// back into the mempool on load); only an unclean crash may have lost it
+			// (and not even that if a block was processed between the delivery and the crash: finishing a
+			// block writes the unconfirmed set)
+			return tDelivered <= e.At && (w.sameGen(u, e.NodeID) || !w.crashLostTracking(tDelivered, e.At))
 		}
 	}
 	return false
@@ -720,7 +724,18 @@ func (w *World) bodyProcessed(name string) bool {
 			return true
 		}
 	}
-	return false
+	return w.trackedAcrossRestarts(name)
+}
+
+// trackedAcrossRestarts: a relevant tx that was delivered stays tracked - in the persisted
+// unconfirmed set and, because the node puts that set back into the mempool when it loads, in the
+// double-spend index - through reconnects and clean restarts; only an unclean crash may lose it.
+func (w *World) trackedAcrossRestarts(name string) bool {
+	if !w.relevant(name) {
+		return false
+	}
+	t := w.tracks(0)[name]
+	return t != nil && t.newCount > 0 && !w.crashAfter(t.times[0])
 }
 
 func (w *World) anyConflictArrived(name string) bool {
@@ -772,7 +787,7 @@ func (w *World) checkSafeWarranted(n string, t *txTrack, i int, delay int64) {
 			continue // a confirmed double spend removed it from tracking: it is not a known conflict any more
 		}
 		for _, a := range w.arrivals[b] {
-			if a.kind == "tx" && a.at+w.slack < at && (a.src == "local" || a.ready) && a.nodeGen == t.gens[i] {
+			if a.kind == "tx" && a.at+w.slack < at && (a.src == "local" || a.ready) && (a.nodeGen == t.gens[i] || w.trackedAcrossRestarts(b)) {
 				w.fail("C07", "safe-needs-no-conflict", "safe although a conflicting tx is known", fmt.Sprintf("tx %s reported safe at %d ms although conflicting tx %s reached the node at %d ms", n, at/1e6, b, a.at/1e6))
 			}
 		}
@@ -1101,4 +1116,33 @@ func (w *World) evictedBefore(name string, t int64) bool {
 
 func mp8(s client.TxState) string {
 	return s.MerkleProof.BlockHeader.BlockHash().String()[:8]
+}
+
+func (w *World) crashBetween(a, b int64) bool {
+	for _, c := range w.crashes {
+		if c >= a && c <= b {
+			return true
+		}
+	}
+	return false
+}
+
+// crashLostTracking: an unclean crash between a and b that may have lost txs delivered at a - no
+// block was processed between a and that crash.
+func (w *World) crashLostTracking(a, b int64) bool {
+	for _, c := range w.crashes {
+		if c < a || c > b {
+			continue
+		}
+		persisted := false
+		for _, e := range w.H[0].events {
+			if e.Kind == "headers" && e.At > a && e.At <= c {
+				persisted = true
+			}
+		}
+		if !persisted {
+			return true
+		}
+	}
+	return false
 }
